@@ -26,6 +26,7 @@ type pathCase struct {
 	Tree   string    `json:"tree"` // "small" | "deep"
 	Setup  int       `json:"setup"`
 	Steps  []connReq `json:"steps"`
+	Life   bool      `json:"check_lifecycle"`
 }
 
 // populateSmall: /a (dir) /a/x (file "ax") /a/y (dir) /b (dir) /b/x (file "bx")
@@ -154,7 +155,7 @@ func runPathCase(c pathCase, st *pathStats) *fail {
 	if c.Conns < 1 {
 		c.Conns = 1
 	}
-	w, f := newWorld(worldOpts{conns: c.Conns, native: c.Native, populate: pop})
+	w, f := newWorld(worldOpts{conns: c.Conns, native: c.Native, populate: pop, life: c.Life})
 	if f != nil {
 		return f
 	}
